@@ -19,6 +19,7 @@ func runC11(t *kernel.Tape, opt core.Opts) *core.Outcome {
 	g := GenOpts{Modes: []int{ModePregel, ModeDAG, ModeWorkflow}, MaxNodes: 6, Depth: 2, Cycles: true, State: 50, TopState: true,
 		Streams: t.PlanBool(50), Handlers: true, Yields: 2, Parallelism: t.PlanBool(60)}
 	p := Generate(t, g)
+	maybeAnyTypes(t, p)
 	in := M{"in": fmt.Sprintf("x%d", t.Plan(3))}
 	calls := []*Call{
 		{Tag: "r0", Paradigm: t.Plan(4), In: in, InCut: t.Plan(3), InPipe: t.PlanBool(50), StopAfter: -1},
@@ -161,6 +162,7 @@ func runC10(t *kernel.Tape, opt core.Opts) *core.Outcome {
 	g := GenOpts{Modes: []int{ModePregel, ModeDAG, ModeWorkflow}, MaxNodes: 6, Depth: 2, Cycles: true, State: 20,
 		Streams: t.PlanBool(60), Handlers: true, Yields: 2, Parallelism: t.PlanBool(60)}
 	p := Generate(t, g)
+	maybeAnyTypes(t, p)
 	var faults []lnode
 	if t.PlanBool(15) {
 		faults = injectFaults(t, p, []int{0, 1}, false)
